@@ -320,6 +320,11 @@ def rule_loose_signal(ctx, rep):
             for trace, (kind, r, nested, w) in c13.explore_reader(model, cls, nlines=nlines):
                 if kind != 'ret' or r is None or not nested:
                     continue
+                if len(nested) != 1:
+                    # a reader that re-tokenizes several buffers in one call (a list reading its items itself) and may
+                    # rewind between them: the accounting is stated for one buffer; its item reader is analysed by itself
+                    multi = True
+                    continue
                 caller, args, kwargs = nested[-1]
                 buf = args[0] if args else None
                 sl = kwargs.get('start_line', args[2] if len(args) > 2 else None)
